@@ -13,6 +13,12 @@ class HsProp(Prop):
     debug_build_too = True
     impl_only_kinds = ('TP',)
 
+    def corpus(self):
+        import os
+        from .. import build
+        p = os.path.join(build.ROOT, 'corpus', 'hs.txt')
+        return [l.strip() for l in open(p) if l.strip() and not l.startswith('#')] if os.path.exists(p) else []
+
     def nontrivial_key(self, case_line, trace):
         if trace.startswith('bad-case'):
             return None
@@ -51,7 +57,7 @@ class C15(HsProp):
     level_note = 'Trusted: Coq kernel, Handshake.v/Sha1.v, parser oracle hypotheses, correspondence generators'
     def generate(self, tier, rng):
         quick = tier == 'quick'
-        out = []
+        out = list(self.corpus())
         variants = gen_hs.server_request_variants(rng, 150 if quick else 1500)
         k = 0
         for hs, method, ver in variants:
@@ -107,7 +113,7 @@ class C16(HsProp):
     partial = 'key freshness/unpredictability is a property of rand; the theorems hold for every key'
     def generate(self, tier, rng):
         quick = tier == 'quick'
-        out = []
+        out = list(self.corpus())
         k = 0
         for uri in gen_hs.URIS:
             out.append('URI u%d %s' % (k, hx(uri)))
@@ -177,7 +183,7 @@ class C17(HsProp):
     level_note = 'Trusted: Coq kernel, Handshake.v, parser hypotheses P1-P3 (tested), correspondence generators'
     def generate(self, tier, rng):
         quick = tier == 'quick'
-        out = []
+        out = list(self.corpus())
         k = 0
         good = gen_hs.request_bytes(gen_hs.REQUIRED)
         bad = gen_hs.request_bytes([h for h in gen_hs.REQUIRED if h[0] != b'Upgrade'])
